@@ -21,6 +21,7 @@ func Spec() *run.Spec {
 			"and shared texture/sampler pointers, optional TRS, 0–5 GPU instances, 0–3 lights, material/texture extensions. Phase dedup-matrix: case i exercises single-field variant kind i mod K " +
 			"(K = every core material field, every texture field in each texture slot, presence/value/texture of every material extension) next to the base pointer twice, a copy of the base and a copy of the variant. " +
 			"Phase index-width: meshes of 65 534…70 000 vertices whose index list touches the last vertex. " +
+			"Phase block-multiples: one mesh of exactly k·⌊B/e⌋ vertices (B = 4…64 KiB, e = 2, 4, 8, 12, 16 bytes per element; k = 1…3, thorough …12) with the full attribute mix, in a third of the cases a model with such a number of GPU instances. " +
 			"Phase fault-sequences: histories of 3–8 exports in one goroutine mixing scenes the writer must reject after an earlier model already wrote geometry (nil mesh, alphaCutoff without MASK in 3 forms, non-finite min/max refused by encoding/json), valid scenes written to failing / short-writing io.Writers at a seeded byte budget, and valid exports that must pass the full oracle whatever happened before; non-trivial = some fault followed by a checked valid export with ≥ 2 accessors. " +
 			"Phase writer-reuse: one gltf.Writer (NewWriterFromScene, or NewWriter + AddScene) emits the same scene 2–3 times through its public emit methods in each of the 12 orders over {WriteGLB, ToGLTF(base64)+json}; every output passes the full oracle and equals the one-shot WriteBinary / WriteText export of the scene (JSON tree with extensionsUsed/Required as sets, and payload bytes). " +
 			"Phase large-payload: point-cloud scenes composed to hit an exact buffer size (1 MiB −2/0/+2/+4, between 1 and 2 MiB, 2 MiB +2, above 2 MiB, above 3 MiB), text and binary container, base64 decoded strictly. " +
@@ -39,6 +40,7 @@ func Spec() *run.Spec {
 		MinNontrivial: map[string]int{"quick": 300, "thorough": 5000},
 		MinObserved: map[string]int64{
 			"variant_kinds":                        90,
+			"block_multiple_vertex_counts":         30,
 			"index_component_types":                2,
 			"containers":                           2,
 			"models_matched":                       2000,
@@ -99,6 +101,12 @@ func Spec() *run.Spec {
 				}
 				return 15
 			}, Run: indexWidthCase, Batch: 1, CPUBudgetS: 120},
+			{Name: "block-multiples", Cases: func(t string) int {
+				if t == "thorough" {
+					return 12 * len(blockBases)
+				}
+				return 3 * len(blockBases)
+			}, Run: blockMultipleCase, Batch: 2, CPUBudgetS: 240},
 		},
 	}
 }
@@ -123,6 +131,52 @@ func indexWidthCase(c *run.Ctx) run.Result {
 	}
 	si := randomScene(c.Rng, big, c.Tier == "thorough")
 	return runScene(c, si, "")
+}
+
+// blockBases: element counts that fill a 4, 8, 16, 32 or 64 KiB staging block exactly (or to the last whole
+// element) for element sizes of 2, 4, 8, 12 and 16 bytes. Round 7 (C06-L): a writer that packs VEC3 floats
+// through a 32 KiB block (2730 elements) lost the last block of arrays that are an exact multiple of it.
+var blockBases = func() []int {
+	seen := map[int]bool{}
+	var out []int
+	for _, b := range []int{4096, 8192, 16384, 32768, 65536} {
+		for _, es := range []int{2, 4, 8, 12, 16} {
+			if n := b / es; !seen[n] {
+				seen[n] = true
+				out = append(out, n)
+			}
+		}
+	}
+	sort.Ints(out)
+	return out
+}()
+
+func blockMultipleCase(c *run.Ctx) run.Result {
+	base := blockBases[c.Case%len(blockBases)]
+	k := 1 + c.Case/len(blockBases)
+	n := base * k
+	for n > 200000 {
+		n -= base
+	}
+	big := []int{-n}
+	if c.Rng.Intn(3) == 0 {
+		big[0] = n // the plain position(+uv) mesh with an index list that touches the last vertex
+	}
+	inst := 0
+	if c.Rng.Intn(3) == 0 {
+		inst = blockBases[c.Rng.Intn(len(blockBases))] * (1 + c.Rng.Intn(2))
+		for inst > 12000 {
+			inst /= 2
+		}
+	}
+	si := randomSceneX(c.Rng, big, false, inst)
+	res := runScene(c, si, fmt.Sprintf("block-multiple/%d", base))
+	res.SetAdd("block_multiple_vertex_counts", fmt.Sprint(n))
+	res.SetAdd("block_multiple_bases", fmt.Sprint(base))
+	if inst > 0 {
+		res.SetAdd("block_multiple_instance_counts", fmt.Sprint(inst))
+	}
+	return res
 }
 
 func runScene(c *run.Ctx, si *sceneInfo, kind string) run.Result {
